@@ -3,6 +3,7 @@ package main
 // Term DAG with hash-consing and light simplification, printed as SMT-LIB2.
 
 import (
+	"os"
 	"fmt"
 	"math/big"
 	"sort"
@@ -346,8 +347,51 @@ func Cmp(op string, x, y *Term) *Term {
 	if x == y {
 		return BoolC(op == "<=" || op == ">=")
 	}
+	// interval folding against a constant (the ranges are typing facts asserted for the atoms)
+	if (y.Op == "int" || x.Op == "int") && !noFold {
+		if rx, ry := rangeOf(x), rangeOf(y); rx != nil && ry != nil {
+			switch op {
+			case "<":
+				if rx.Hi.Cmp(ry.Lo) < 0 {
+					return TTrue
+				}
+				if rx.Lo.Cmp(ry.Hi) >= 0 {
+					return TFalse
+				}
+			case "<=":
+				if rx.Hi.Cmp(ry.Lo) <= 0 {
+					return TTrue
+				}
+				if rx.Lo.Cmp(ry.Hi) > 0 {
+					return TFalse
+				}
+			case ">":
+				if rx.Lo.Cmp(ry.Hi) > 0 {
+					return TTrue
+				}
+				if rx.Hi.Cmp(ry.Lo) <= 0 {
+					return TFalse
+				}
+			case ">=":
+				if rx.Lo.Cmp(ry.Hi) >= 0 {
+					return TTrue
+				}
+				if rx.Hi.Cmp(ry.Lo) < 0 {
+					return TFalse
+				}
+			}
+		}
+	}
 	return mk(op, "", SBool, nil, x, y)
 }
+
+// rangeFact states the typing range of t without going through the interval folding of Cmp
+// (which would fold the fact away using the very range it states).
+func rangeFact(t *Term) *Term {
+	return And(mk("<=", "", SBool, nil, IntB(t.Rng.Lo), t), mk("<=", "", SBool, nil, t, IntB(t.Rng.Hi)))
+}
+
+var noFold = os.Getenv("GOVC_NOFOLD") != ""
 
 func Lt(x, y *Term) *Term { return Cmp("<", x, y) }
 func Le(x, y *Term) *Term { return Cmp("<=", x, y) }
@@ -618,6 +662,9 @@ func Select(a, i *Term) *Term {
 	if a.Op == "constarr" {
 		return a.Args[0]
 	}
+	if a.Op == "lam" {
+		return Subst(a.Args[0], map[*Term]*Term{a.Bnd[0]: i})
+	}
 	if a.Op == "ite" {
 		k := [2]int{-a.id, i.id}
 		if r, ok := selMemo[k]; ok {
@@ -841,6 +888,13 @@ func varIDs(vs []*Term) []int {
 	return r
 }
 
+// Lam: the array  j |-> body  (only used inside stream segment items; eliminated before solving).
+func Lam(j *Term, body *Term) *Term {
+	t := mk("lam", fmt.Sprint(j.id), ArraySort(j.Sort, body.Sort), nil, body)
+	t.Bnd = []*Term{j}
+	return t
+}
+
 // ---- substitution ----
 
 func Subst(t *Term, m map[*Term]*Term) *Term {
@@ -931,6 +985,8 @@ func rebuild(t *Term, args []*Term) *Term {
 		r := mk(t.Op, t.Name, SBool, nil, args...)
 		r.Bnd = t.Bnd
 		return r
+	case "lam":
+		return Lam(t.Bnd[0], args[0])
 	}
 	r := mk(t.Op, t.Name, t.Sort, t.Int, args...)
 	if r.Rng == nil {
@@ -954,6 +1010,54 @@ func printInt(sb *strings.Builder, v *big.Int) {
 		sb.WriteString(")")
 	} else {
 		sb.WriteString(v.String())
+	}
+}
+
+// printShared prints a quantifier body with its repeated sub-terms bound by nested lets (the
+// sub-terms that depend on the bound variables cannot be top-level define-funs).
+func printShared(sb *strings.Builder, body *Term, named map[*Term]string) {
+	refs := map[*Term]int{}
+	var order []*Term
+	seen := map[*Term]bool{}
+	var rec func(*Term)
+	rec = func(t *Term) {
+		if named != nil {
+			if _, ok := named[t]; ok {
+				return
+			}
+		}
+		refs[t]++
+		if seen[t] {
+			return
+		}
+		seen[t] = true
+		if t.Op == "forall" || t.Op == "exists" || t.Op == "lam" {
+			return // inner binders share within their own body
+		}
+		for _, a := range t.Args {
+			rec(a)
+		}
+		order = append(order, t)
+	}
+	rec(body)
+	local := map[*Term]string{}
+	for k, v := range named {
+		local[k] = v
+	}
+	n := 0
+	for _, t := range order {
+		if refs[t] > 1 && len(t.Args) > 0 && t != body {
+			var b strings.Builder
+			printTerm(&b, t, local)
+			nm := fmt.Sprintf("$q%d_%d", body.id, n)
+			n++
+			fmt.Fprintf(sb, "(let ((%s %s)) ", nm, b.String())
+			local[t] = nm
+		}
+	}
+	printTerm(sb, body, local)
+	for i := 0; i < n; i++ {
+		sb.WriteByte(')')
 	}
 }
 
@@ -1009,13 +1113,17 @@ func printTerm(sb *strings.Builder, t *Term, named map[*Term]string) {
 		sb.WriteString("((_ is " + quoteSym(t.Name) + ") ")
 		printTerm(sb, t.Args[0], named)
 		sb.WriteString(")")
+	case "lam":
+		sb.WriteString("(lambda ((" + quoteSym(t.Bnd[0].Name) + " " + t.Bnd[0].Sort.String() + ")) ")
+		printTerm(sb, t.Args[0], named)
+		sb.WriteString(")")
 	case "forall", "exists":
 		sb.WriteString("(" + t.Op + " (")
 		for _, v := range t.Bnd {
 			sb.WriteString("(" + quoteSym(v.Name) + " " + v.Sort.String() + ")")
 		}
 		sb.WriteString(") ")
-		printTerm(sb, t.Args[0], named)
+		printShared(sb, t.Args[0], named)
 		sb.WriteString(")")
 	default:
 		sb.WriteString("(" + t.Op)
@@ -1091,6 +1199,34 @@ func (sc *Script) Render() string {
 	} else {
 		sb.WriteString("(set-option :produce-models true)\n")
 	}
+	// segment bodies (lambda terms) are opaque to the solvers: each distinct one becomes an
+	// unconstrained array constant (sound: the obligation is then proved for every array)
+	lams := map[*Term]*Term{}
+	var findLams func(t *Term, seen map[*Term]bool)
+	findLams = func(t *Term, seen map[*Term]bool) {
+		if seen[t] {
+			return
+		}
+		seen[t] = true
+		if t.Op == "lam" {
+			lams[t] = Sym(fmt.Sprintf("lam!%d", t.id), t.Sort)
+			return
+		}
+		for _, a := range t.Args {
+			findLams(a, seen)
+		}
+	}
+	seenL := map[*Term]bool{}
+	for _, a := range sc.Asserts {
+		findLams(a, seenL)
+	}
+	if len(lams) > 0 {
+		na := make([]*Term, len(sc.Asserts))
+		for i, a := range sc.Asserts {
+			na[i] = Subst(a, lams)
+		}
+		sc.Asserts = na
+	}
 	unfold := unfoldRecs(sc.Asserts, sc.RecDefs, 2)
 	sc.Asserts = append(append([]*Term{}, sc.Asserts...), unfold...)
 	all := append([]*Term{}, sc.Asserts...)
@@ -1126,7 +1262,7 @@ func (sc *Script) Render() string {
 	var rangeFacts []*Term
 	collect(all, func(t *Term) {
 		if t.Rng != nil && !dependsBound[t] && t.Sort == SInt {
-			rangeFacts = append(rangeFacts, And(Le(IntB(t.Rng.Lo), t), Le(t, IntB(t.Rng.Hi))))
+			rangeFacts = append(rangeFacts, rangeFact(t))
 		}
 	})
 	all = append(all, rangeFacts...)
